@@ -10,6 +10,7 @@ import (
 	"sort"
 	"strconv"
 	"strings"
+	"sync/atomic"
 	"time"
 
 	"github.com/santhosh-tekuri/raft/log"
@@ -404,6 +405,8 @@ func (c *simCluster) run(n *simNode, desc, ev string, fn func() (response, []str
 	preCommit := n.r.commitIndex
 	preRemoveLTE := n.l.removeLTE
 	var o stepObs
+	atomic.AddInt64(&simBeat, 1)
+	simDoing.Store(fmt.Sprintf("%s on node %d", desc, n.r.nid))
 	c.preImp = c.importantIDs(n)
 	hint := c.hint
 	c.hint = absHint{}
